@@ -79,29 +79,30 @@ Proof.
   match goal with |- context[if ?b then _ else _] => destruct b end; simpl; exact E.
 Qed.
 
-Theorem settle_quiescent : forall fuel cid H H',
-  cid < length (cmds H) ->
-  settle fuel cid H = Some H' -> was_aborted cid H' = false ->
+(* the loop of run_until_settled ends only with both of the command's own queues empty *)
+Theorem loop_quiescent : forall fuel cid H H',
+  settle_loop fuel cid H = Some H' ->
   c_ready (gcmd cid H') = [] /\ c_spawnq (gcmd cid H') = [].
 Proof.
-  induction fuel as [|f IH]; intros cid H H' Hc E Hab'; [discriminate|].
-  assert (R0 : Rmeta H H') by (unfold settle in E; apply (frame_meta (S f)) in E; exact E).
-  assert (Hab : was_aborted cid H = false) by (eapply was_aborted_false_back; eauto).
-  unfold settle in E. cbn [funs step_funs rsettle] in E. unfold settle_body in E.
-  rewrite Hab in E.
+  induction fuel as [|f IH]; intros cid H H' E; [discriminate|].
+  unfold settle_loop in E. cbn [funs step_funs rloop] in E. unfold loop_body in E.
   set (H1 := fold_left (fun Hh t => ucmd cid (spawn_one t) Hh) (c_spawnq (gcmd cid H)) (ucmd cid (set_spawnq []) H)) in *.
-  assert (R1 : Rmeta H H1).
-  { subst H1. eapply Rmeta_trans; [apply (Rmeta_ucmd cid (set_spawnq [])); solve_good|].
-    apply (R_fold Rmeta Rmeta_refl Rmeta_trans). intros t Hh. apply Rmeta_ucmd. solve_good. }
   assert (Hq : c_spawnq (gcmd cid H1) = []).
   { subst H1. apply spawn_fold_queues. rewrite gcmd_ucmd_same. destruct (gcmd cid H); reflexivity. }
   destruct (c_ready (gcmd cid H1)) as [|s rest] eqn:ER.
   - inversion E; subst H'. split; auto.
   - destruct (rdrain (funs f) cid H1) as [H2|] eqn:E2; [|discriminate].
-    assert (R2 : Rmeta H1 H2) by (apply (frame_meta f) in E2; exact E2).
-    assert (R02 : Rmeta H H2) by (eapply Rmeta_trans; eassumption).
-    apply (IH cid H2 H'); auto.
-    destruct R02 as (_ & L & _). lia.
+    apply (IH cid H2 H'). exact E.
+Qed.
+(* run_until_settled of a command that is not aborted on entry returns only with its ready queue and
+   spawn queue empty - whatever its tasks did meanwhile, aborting their own command included *)
+Theorem settle_quiescent : forall fuel cid H H',
+  was_aborted cid H = false -> settle fuel cid H = Some H' ->
+  c_ready (gcmd cid H') = [] /\ c_spawnq (gcmd cid H') = [].
+Proof.
+  intros [|f] cid H H' Hab E; [discriminate|].
+  unfold settle in E. cbn [funs step_funs rsettle] in E. unfold settle_body in E. rewrite Hab in E.
+  apply (loop_quiescent f cid H H'). exact E.
 Qed.
 
 (* an aborted command is never polled: its settle step does not depend on the recursive functions *)
